@@ -49,13 +49,20 @@ func C02_Slice[T signal.SignalTypes]() {
 	// the view is a header of its own: a length change through it leaves the parent's length alone
 	// slicing the same frames again gives another independent header
 	again := parent.Slice(start, end)
-	vf.Assert("same-frames-again-is-a-new-view", again != child && again.Len() == C*(end-start) && again.Cap() == C*(pcap-start))
+	vf.Assert("same-frames-again-is-the-same-window", again.Len() == C*(end-start) && again.Cap() == C*(pcap-start))
 	if child.Len() < child.Cap() {
 		vf.Cover("child-append")
 		child.AppendSample(vf.Any[T]("x"))
 		vf.Assert("child-grew", child.Len() == C*(end-start)+1)
 		vf.Assert("parent-length-unchanged-by-child-append", parent.Len() == pl && parent.Length() == plen)
 		vf.Assert("sibling-view-length-unchanged-by-child-append", again.Len() == C*(end-start))
+	} else {
+		// a full window: a growing append through it must not change the other view of the same frames either
+		vf.Cover("child-grow")
+		g := parent.Slice(start, end)
+		g.Append(allocAny[T](C, 1, "more"))
+		vf.Assert("sibling-view-length-unchanged-by-growth", again.Len() == C*(end-start) && again.Cap() == C*(pcap-start) && child.Len() == C*(end-start))
+		vf.Assert("parent-length-unchanged-by-growth", parent.Len() == pl && parent.Cap() == pc)
 	}
 	full := child.Slice(0, child.Capacity())
 	if full.Len() == 0 {
